@@ -61,6 +61,7 @@ type c06Trace struct {
 	tags   map[string]bool
 	anom   []string // events the translation could not explain
 	hook   bool
+	leak   bool // a function returned normally without releasing its frame
 }
 
 // c06Run evaluates the program (declarations, then main1()) in a fresh interpreter
@@ -95,6 +96,11 @@ func c06Run(decls []string) *c06Trace {
 	if hook != nil {
 		hook.VerifC06(nil, false)
 		c06Translate(tr, base, events)
+		if tr.tags["unwind"] && !strings.Contains(src, "panic(") && errText == "" {
+			// activations can only be left behind by a panic; the program has none:
+			// some function frame was never released (no freeEnv4Func on a normal return)
+			tr.leak = true
+		}
 	}
 	return tr
 }
@@ -390,6 +396,9 @@ func c06Exec(op string) Result {
 		if tr.result != want {
 			res.Viol = fmt.Sprintf("program %s: gomacro (frames poisoned on release) returns %q, compiled Go returns %q", name, truncate(tr.result, 200), truncate(want, 200))
 			res.Key = "C06-result-" + name
+		} else if tr.leak {
+			res.Viol = fmt.Sprintf("program %s: a function returned normally but its frame was never released (freeEnv4Func not called): the monitor needs a panic-style unwind in a program without panic", name)
+			res.Key = "C06-frame-not-released-" + name
 		} else if len(tr.anom) > 0 {
 			res.Viol = fmt.Sprintf("program %s: frame event not explained by the call/block structure: %s", name, strings.Join(tr.anom, "; "))
 			res.Key = "C06-monitor-" + name
